@@ -5,6 +5,8 @@ from fractions import Fraction
 
 from vmon import gens as G
 from vmon.gens import THOROUGH_SCALE as TS
+
+TS = TS * 6          # this check is cheap per case: the thorough tier explores six times the common random workload
 from vmon import oracles as O
 
 PID = "C13"
